@@ -35,10 +35,14 @@ def load_formats(it):
     ej = it.module('dataflows.helpers.extended_json')
     mc = it.module('dataflows.processors.dumpers.formats.format_csv')
     mj = it.module('dataflows.processors.dumpers.formats.format_json')
-    # the write formats are chosen by a platform probe at import time (dropped by the loader, DESIGN 2.4): both admissible
-    # outcomes pair '%04Y' / '%Y' write formats with the '%Y' parse formats; the glibc variant is installed here
+    # the six format constants are the ones extended_json's own top-level code computes (its platform probe is answered as
+    # on glibc by the datetime stub) and the format modules import; FORMATS are the pairs for which T10 (strptime inverts
+    # strftime) is assumed -- the obligations compare the module's constants against them
     for m in (ej, mc, mj):
-        m.attrs.update(FORMATS)
+        for cname in FORMATS:
+            if cname in m.attrs and not isinstance(m.attrs.get(cname), str):
+                from pyvc.api import Unsupported
+                raise Unsupported('CONTRACT-MAPPING %s.%s is not a string constant: %r' % (m.name, cname, m.attrs.get(cname)))
     return mc, mj, it.module('dataflows.processors.dumpers.formats.base')
 
 
@@ -139,7 +143,10 @@ def sym_type_tables(vc):
                 check(it, '%s-%s-written-with-the-strftime-twin-of-the-stamped-format' % (name, kind),
                       z3.And(term(out, StrS) == SF(z3.StringVal(kind), v.term, z3.StringVal(FORMATS[ff])),
                              z3.BoolVal(DIA.d[kind].d.get('format') == FORMATS[pf])))
-                check(it, '%s-%s-formats-are-twins' % (name, kind), FORMATS[ff].replace('%04Y', '%Y') == FORMATS[pf])
+                ej = it.module('dataflows.helpers.extended_json')
+                check(it, '%s-%s-module-formats-are-the-twins-T10-covers' % (name, kind),
+                      ej.attrs.get(ff) == FORMATS[ff] and ej.attrs.get(pf) == FORMATS[pf]
+                      and str(ej.attrs.get(ff)).replace('%04Y', '%Y') == ej.attrs.get(pf))
         # CSV: booleans go through str(): 'True' / 'False' must be exactly the stamped true/false values
         b = cls = mc.attrs['CSVFormat']
         d = b.attrs['PYTHON_DIALECT'].d
